@@ -389,6 +389,14 @@ func ruleFLDW(c *Ctx) []Obligation {
 						mark(n, f.Name())
 					}
 				}
+			case *ast.UnaryExpr:
+				// &obj.F handed to a helper that fills it (irOperandPair(&inst.X, &inst.Y, …),
+				// irMetadataInto(&inst.Metadata, …)): the field is written through the pointer
+				if nd.Op == token.AND {
+					if n, f := c.irFieldOf(info, nd.X); n != nil {
+						mark(n, f.Name())
+					}
+				}
 			case *ast.CallExpr:
 				// setters: x.SetF(v) on an IR struct; constructors ir.NewX(...) fill what they take
 				if se, ok := unparen(nd.Fun).(*ast.SelectorExpr); ok {
